@@ -725,9 +725,18 @@ Lemma pool_kwarg_merge_spec : forall obj call,
   (call = None -> src_mp_pool_kwarg obj call = obj /\ src_loky_executor_kwarg obj call = obj).
 Proof. intros [o|] [c|]; split; intros; try discriminate; try (inversion H; subst); split; reflexivity. Qed.
 
-(* loky: with the regenerated facts, a reused executor keeps the folder it was created with, whatever this call resolved *)
-Lemma loky_reused_keeps_old_folder : forall prev given,
-  loky_folder_used reuse_key_has_temp_folder reused_executor_gets_new_manager prev given true = prev.
+(* loky: with the regenerated facts (temp_folder takes part in the reuse decision), whatever executor is alive and whether or
+   not it is reused, the folder used is the one resolved for THIS call *)
+Lemma loky_folder_is_given : forall prev given other,
+  loky_folder_used reuse_key_has_temp_folder reused_executor_gets_new_manager prev given other = given.
+Proof.
+  intros prev given other. unfold loky_folder_used. cbn [reuse_key_has_temp_folder reused_executor_gets_new_manager negb orb andb].
+  destruct other; cbn [andb]; [|reflexivity]. destruct (prev =? given) eqn:E; cbn; [lia|reflexivity].
+Qed.
+
+(* the hypothesis matters (F47): when temp_folder is NOT part of the reuse decision and a reused executor keeps its manager, a
+   reused executor keeps the folder it was created with *)
+Lemma loky_reused_keeps_old_folder : forall prev given, loky_folder_used false false prev given true = prev.
 Proof. reflexivity. Qed.
 
 Lemma loky_fresh_uses_given : forall k m prev given, loky_folder_used k m prev given false = given.
